@@ -24,6 +24,7 @@ import (
 	"strconv"
 	"strings"
 
+	"github.com/deadsy/sdfx/obj"
 	"github.com/deadsy/sdfx/sdf"
 	v3 "github.com/deadsy/sdfx/vec/v3"
 )
@@ -151,6 +152,7 @@ type lookupObs struct {
 	MTaper bool   `json:"mtaper"` // taper and name unchanged
 	Idem   bool   `json:"idem"`   // ToMillimetre(ToMillimetre(t)) == ToMillimetre(t) field by field
 	Pure   bool   `json:"pure"`   // the database entry itself is not modified by the conversion
+	GPure  bool   `json:"gpure"`  // nor by the generators that cut this thread (threaded cylinder, nut, bolt) with a tolerance
 	Hex    bool   `json:"hex"`    // hex flat-to-flat > 2 * radius (a head that is wider than the thread)
 }
 
@@ -196,6 +198,13 @@ func c18Lookup(args []string) error {
 		o.Idem = *m2 == *m
 		o.Pure = *t == before
 		o.Hex = t.HexFlat2Flat > 2*t.Radius
+		// the generators look the thread up themselves: a later lookup must still find the designation's entry
+		hmm := 6 * m.Pitch
+		(&obj.ThreadedCylinderParms{Height: hmm, Diameter: 4 * m.Radius, Thread: v.Name, Tolerance: 0.2}).Object()
+		obj.Nut(&obj.NutParms{Thread: v.Name, Style: "hex", Tolerance: 0.1})
+		obj.Bolt(&obj.BoltParms{Thread: v.Name, Style: "hex", Tolerance: 0.1, TotalLength: hmm, ShankLength: 0})
+		t3, err3 := sdf.ThreadLookup(v.Name)
+		o.GPure = err3 == nil && *t3 == before && *t == before
 		emit(o)
 	})
 	if n == 0 {
@@ -263,7 +272,19 @@ func c18Lattice(args []string) error {
 		if s != nil {
 			a := float64(v.K) * math.Pi / 4
 			rho := float64(v.Rho2) / 2
-			f := s.Evaluate(v3.Vec{X: rho * math.Cos(a), Y: rho * math.Sin(a), Z: float64(v.Zq) / 4})
+			q := v3.Vec{X: rho * math.Cos(a), Y: rho * math.Sin(a), Z: float64(v.Zq) / 4}
+			// on the coordinate half-planes the point is exact (y = 0 or x = 0, not 1e-16)
+			switch ((v.K % 8) + 8) % 8 {
+			case 0:
+				q.X, q.Y = rho, 0
+			case 2:
+				q.X, q.Y = 0, rho
+			case 4:
+				q.X, q.Y = -rho, 0
+			case 6:
+				q.X, q.Y = 0, -rho
+			}
+			f := s.Evaluate(q)
 			switch {
 			case f < -1e-9:
 				o.Cls = -1
